@@ -1,6 +1,7 @@
 """C10 - No server input can crash the client (exploration)."""
 import json, os
 import c06
+import rxcommon
 
 
 def run(ctx):
@@ -9,6 +10,7 @@ def run(ctx):
         ctx.validate("", "Trace_Wire", "Trace_Wire.cfg", ctx.replay, shards=1, label="replay (recorded trace)", extra_env={"JUDGE": "C10"}, stack="64m")
         return ctx.finish(level="exploration")
     ctx.tlc_mc("", "MC_Wire", "MC_Wire.cfg", workers=4)
+    rxcommon.reader_badlen_design(ctx)
     t = c06.drive(ctx, "C10", ["-count", 1, "-mut", 12 if thorough else 2], "structured hostile inputs generated from valid encodings")
     n = kinds = 0
     cls = {"ok": 0, "need": 0, "err": 0, "panic": 0}
@@ -25,7 +27,7 @@ def run(ctx):
     if sample:
         ctx.samples.insert(0, {"batch": sample})
     ctx.assumptions += [
-        "exploration only: inputs are single-field boundary mutations (every byte / 16-bit / 32-bit window of the leading 48 bytes), truncations, appended garbage, arbitrary bytes after each token, format packages followed by mutated data, every data type x data length 0..255, random packet headers incl. length < 8; no coverage guidance, no multi-field coordination",
+        "exploration only: inputs are single-field boundary mutations (every byte / 16-bit / 32-bit window of the leading 48 bytes), truncations, appended garbage, arbitrary bytes after each token, format packages followed by mutated data, every data type x data length 0..255, random packet headers incl. length < 8 (every eighth one followed by 66 kB, a peer that keeps sending); a call still running 3 s after a dead peer is a hang and rejected; no coverage guidance, no multi-field coordination",
         "allocation is measured (runtime.MemStats.TotalAlloc delta per input), bound 64 x received + 2 MiB (the constant covers slices sized by 16-bit count fields); an allocation beyond that which is explained by a length declared in the input is reported separately (declared) and is a violation unless acknowledged",
         "32-bit length fields are mutated to at most 16 MiB (an allocation of the declared size stays observable and cheap)"]
     return ctx.finish(level="exploration", rule="distinct_nontrivial = number of (level, package kind / data type) batches; evaluations = hostile inputs executed")
